@@ -76,6 +76,7 @@ def check(case, ctx):
         gen = mk()
         ptr = 0
         for n in ns:
+            before = pos[0]
             try:
                 got = take_first(gen, n)
             except BaseException as e:
@@ -92,11 +93,11 @@ def check(case, ctx):
                 # (or to its end if the Values ran out)
                 if len(exp) == n:
                     limit = (vidx[ptr - 1] + 1) if ptr else 0
-                    if pos[0] > limit:
+                    if pos[0] > max(limit, before):      # (an earlier call may already have advanced further)
                         bad("consume", "take_first calls %r: after take_first(gen, %d) the body has advanced to operation %d, needed at most %d" % (ns, n, pos[0], limit))
                         break
-            if gen.is_stopped:
-                # an exhausted generator keeps raising StopIteration
+            if len(exp) < n:
+                # the Values ran out: the generator is exhausted and keeps raising StopIteration
                 for _ in range(2):
                     try:
                         next(gen)
